@@ -359,6 +359,8 @@ def main():
     vizpanic_cov = None
     if prop == "C14":
         pcases = gen.generate_viz(seed + 7, 120 if tier == "quick" else 6000, decorators=True)
+        # + bodies that call Provide on the container (re-entrant registration): not modelled, must not crash
+        pcases += gen.generate_reentrant(seed + 3, 150 if tier == "quick" else 5000, provides=True)
         pcases, ptraces = common.run_impl_parallel(pcases)
         bad = [(ci, oi) for ci, t in enumerate(ptraces) for oi, ot in enumerate(t["ops"])
                if ot.get("dot_err") == "PANIC" or not ot.get("viz_ok", True) or not ot.get("str_ok", True)
@@ -419,7 +421,7 @@ def main():
         ncases, ntraces = common.run_impl_parallel(ncases)
         seen_cb, wrong = 0, []
         for c, t in zip(ncases, ntraces):
-            pool_of = {f["id"]: f.get("pool") for f in c["fns"]}
+            pool_of = {f["id"]: (f.get("pool") if f.get("pool") is not None else f.get("loc_pool")) for f in c["fns"]}
             for oi, ot in enumerate(t["ops"]):
                 for ev in ot["events"]:
                     if ev["ev"] == "cb" and pool_of.get(ev["f"]) is not None:
@@ -429,7 +431,10 @@ def main():
         dec_cb = sum(1 for c, t in zip(ncases, ntraces) for ot in t["ops"] for ev in ot["events"]
                      if ev["ev"] == "cb" and any(o["op"] == "decorate" and o["fn"] == ev["f"] for o in c["ops"]))
         name_cov = dict(histories=len(ncases), callbacks_of_declared_functions=seen_cb,
-                        of_which_decorators=dec_cb, wrong_names=len(wrong))
+                        of_which_decorators=dec_cb,
+                        of_which_located_by_LocationForPC=sum(1 for c, t in zip(ncases, ntraces) for ot in t["ops"] for ev in ot["events"]
+                                                              if ev["ev"] == "cb" and any(f["id"] == ev["f"] and f.get("loc_pool") is not None for f in c["fns"])),
+                        wrong_names=len(wrong))
         if wrong:
             c, t, oi, ev = wrong[0]
             p = write_replay(prop, f"name-{case_hash(c)}", {"property": prop, "meaning": "CallbackInfo.Name does not identify the function that was executed",
